@@ -26,6 +26,7 @@ func init() { log.SetLevel(log.FatalLevel) }
 type Case struct {
 	Proto string `json:"proto"` // tcp | udp
 	IP    string `json:"ip"`    // remote address, textual
+	Local string `json:"local,omitempty"` // tcp-accept-ns: address the accepting socket listens on
 	Port  int    `json:"port"`
 }
 
@@ -48,6 +49,18 @@ func isLoopback(ip net.IP) bool {
 
 func genCase(t *rapid.T) Case {
 	c := Case{Proto: rapid.SampledFrom([]string{"tcp", "udp", "tcp", "udp", "tcp-accept"}).Draw(t, "proto"), Port: rapid.IntRange(1024, 65535).Draw(t, "port")}
+	if rapid.IntRange(0, 5).Draw(t, "ns") == 0 {
+		// accepted connections between addresses of a private network namespace (see netns_test.go)
+		c.Proto = "tcp-accept-ns"
+		v := func(l string) string {
+			if rapid.IntRange(0, 2).Draw(t, l+"loop") == 0 {
+				return fmt.Sprintf("127.%d.%d.%d", rapid.IntRange(0, 255).Draw(t, l+"a"), rapid.IntRange(0, 255).Draw(t, l+"b"), rapid.IntRange(1, 254).Draw(t, l+"c"))
+			}
+			return fmt.Sprintf("203.0.113.%d", rapid.IntRange(2, 254).Draw(t, l+"d"))
+		}
+		c.IP, c.Local = v("remote"), v("local")
+		return c
+	}
 	if c.Proto == "tcp-accept" {
 		// a real connection accepted from a peer bound to this address (only addresses this host owns can be used)
 		if rapid.Bool().Draw(t, "any127") {
@@ -165,6 +178,29 @@ func exec(c Case) (res evid.Result) {
 			res.Err = fmt.Errorf("link service reports scope %v, its transport %v (remote %s)", ls.Scope(), got, uri)
 			return res
 		}
+	case "tcp-accept-ns":
+		var conn net.Conn
+		var done func()
+		var err error
+		if nserr := inNamespace(func() { conn, done, err = acceptPair(net.ParseIP(c.Local), ip) }); nserr != nil {
+			res.Classes = append(res.Classes, "private-network-namespace-not-available")
+			return res
+		}
+		if err != nil {
+			res.Classes = append(res.Classes, "tcp-accept-ns-socket-not-available")
+			return res
+		}
+		defer done()
+		tr, err := face.AcceptUnicastTCPTransport(conn, nil, face.PersistencyOnDemand)
+		if err != nil || tr == nil {
+			res.Classes = append(res.Classes, "accept-refused-connection")
+			return res
+		}
+		got = tr.Scope()
+		uri = tr.RemoteURI()
+		if isLoopback(net.ParseIP(c.Local)) != isLoopback(ip) {
+			res.Classes = append(res.Classes, "local-and-remote-address-differ-in-kind")
+		}
 	case "tcp-accept":
 		conn, done, err := acceptFrom(ip)
 		if err != nil {
@@ -191,7 +227,7 @@ func exec(c Case) (res evid.Result) {
 		got = tr.Scope()
 		tr.Close()
 	}
-	if want == defn.NonLocal {
+	if want == defn.NonLocal && c.Proto != "tcp-accept-ns" {
 		for _, own := range ownAddrs() {
 			if net.ParseIP(own).Equal(ip) {
 				// an address of this very host that is not a loopback address: either classification keeps /localhost on the machine
@@ -211,7 +247,7 @@ func exec(c Case) (res evid.Result) {
 	return res
 }
 
-const rule = "remote addresses (IPv4/IPv6: loopback 127/8 and ::1, IPv4-mapped forms, look-alikes such as 128.0.0.1, ::2, ::ffff:10.0.0.1, private/link-local/documentation/multicast/this host's own global address, random) x {tcp, udp}: the unicast transport constructed for that remote (no packet is sent; UDP sockets that the sandbox cannot open are skipped and counted), and tcp-accept: a real connection accepted from a peer bound to 127.a.b.c, ::1 or one of this host's other addresses, handed to AcceptUnicastTCPTransport; must be classified local iff the remote address is a loopback address by the harness's own RFC rule, and the link service must report its transport's scope. Non-trivial: a transport was constructed; distinct by (proto, address, port)"
+const rule = "remote addresses (IPv4/IPv6: loopback 127/8 and ::1, IPv4-mapped forms, look-alikes such as 128.0.0.1, ::2, ::ffff:10.0.0.1, private/link-local/documentation/multicast/this host's own global address, random) x {tcp, udp}: the unicast transport constructed for that remote (no packet is sent; UDP sockets that the sandbox cannot open are skipped and counted), and tcp-accept: a real connection accepted from a peer bound to 127.a.b.c, ::1 or one of this host's other addresses, handed to AcceptUnicastTCPTransport; and tcp-accept-ns: the same between 127.a.b.c and 203.0.113.x addresses inside a private network namespace of the test process, where 203.0.113.x peers are neither loopback nor addresses of an interface, i.e. look like another host (local and remote address drawn independently); must be classified local iff the remote address is a loopback address by the harness's own RFC rule, and the link service must report its transport's scope. Non-trivial: a transport was constructed; distinct by (proto, address, port)"
 
 func TestC09TransportScope(t *testing.T) {
 	rec := evid.New("C09", "TestC09TransportScope", rule)
